@@ -77,6 +77,34 @@ b("anomaliser-deepcopy-reset", ["C17", "C10"], "skchange/anomaly_detectors/anoma
   "        import copy\n\n        self.change_detector_ = copy.deepcopy(self.change_detector).reset()",
   "a deep copy that is reset, instead of clone()")
 
+# changes that alter WHAT is computed (other properties' business) but not what it depends on:
+# the three claimed checks must stay silent on them too
+ALL = ["C10", "C01", "C17"]
+b("other-pelt-no-pruning", ALL, "skchange/change_detectors/pelt.py",
+  "            candidate_opt_costs + split_cost <= opt_cost[current_obs_ind + 1] + penalty\n",
+  "            candidate_opt_costs + split_cost <= np.inf\n",
+  "PELT without pruning (C02's business)")
+b("other-capa-penalty-formula", ALL, "skchange/anomaly_detectors/mvcapa.py",
+  "    penalty = scale * (n_params + 2 * np.sqrt(n_params * psi) + 2 * psi)",
+  "    penalty = scale * (n_params + 2 * np.sqrt(n_params * psi) + 3 * psi)",
+  "another penalty formula (C15's business)")
+b("other-moving-window-left-window", ALL, "skchange/change_detectors/moving_window.py",
+  "    starts = splits - bandwidth + 1\n",
+  "    starts = splits - bandwidth\n",
+  "moving window with a full left window (C08's business)")
+b("other-cuts-reject-negative", ALL, "skchange/utils/validation/cuts.py",
+  "    interval_sizes = np.diff(cuts, axis=1)\n",
+  "    if np.any(cuts < 0):\n        raise ValueError(\"The cuts must be non-negative.\")\n    interval_sizes = np.diff(cuts, axis=1)\n",
+  "negative cuts rejected (C13's business)")
+b("other-point-anomaly-length-one", ALL, "skchange/anomaly_detectors/mvcapa.py",
+  "            point_anomalies.append((i, i))",
+  "            point_anomalies.append((i, i + 1))",
+  "point anomalies as length-one intervals (C03/C04's business)")
+b("other-greedy-selection-terminates", ALL, "skchange/change_detectors/seeded_binseg.py",
+  "        scores[(cpt >= starts) & (cpt <= ends - 1)] = 0.0\n",
+  "        scores[(cpt >= starts) & (cpt <= ends - 1)] = -np.inf\n",
+  "greedy selection that terminates for negative thresholds (C07/C14's business)")
+
 GROUPS = {}
 for x in B:
     base = x["id"][: -len("-fit")] if x["id"].endswith("-fit") else x["id"]
